@@ -319,7 +319,7 @@ RF_BASE = {
                   "namespace": "ns", "owned": False},
     "locals": {"a": "=inputs.n + 1"},
     "resource": {"spec": {"x": "=locals.a"}},
-    "return": {"v": "=resource.spec.x"},
+    "return": {"v": "=has(resource.spec) ? resource.spec.x : inputs.n"},
 }
 RF_OBJ = {"apiVersion": "verif.koreo.dev/v1", "kind": "Gadget", "metadata": {"name": "str", "namespace": "ns"},
           "spec": {"x": 6}}
@@ -347,6 +347,8 @@ def run_rf(pre, post, crud, tracer, lookup="notNeeded"):
         plural, obj = "widgets", {**RF_OBJ, "kind": "Widget"}
     if crud == "okReadonly":
         spec["apiConfig"]["readonly"] = True
+    if crud in ("deletedAbsent", "deleting"):
+        spec["apiConfig"]["deleteIfExists"] = True
     if pre:
         spec["preconditions"] = spec_of(pre)
     if post:
@@ -355,7 +357,7 @@ def run_rf(pre, post, crud, tracer, lookup="notNeeded"):
     cl.log_lookups = True
     if lookup == "unknownKind":
         cl.unknown_kinds = {"Widget"}
-    if crud != "createRetry":
+    if crud not in ("createRetry", "deletedAbsent"):
         cl.put("verif.koreo.dev/v1", plural, "ns", "str", obj)
     inp = inputs_for(pre, post)      # preconditions read b[0..9], postconditions b[10..19]
 
@@ -505,9 +507,9 @@ class Impl:
             if got["c"] != "permFail" or "postconditions" in trace or "return" in trace:
                 return f"rf: the kind is unknown to the cluster, yet outcome {got['c']} with trace {trace}"
             return None
-        if c["crud"] == "createRetry":
+        if c["crud"] in ("createRetry", "deleting"):
             if got["c"] != "retry" or "postconditions" in trace or "return" in trace:
-                return f"rf: create path gave {got['c']} with trace {trace}"
+                return f"rf: {c['crud']} path gave {got['c']} with trace {trace}"
             return None
         if post and "postconditions" not in trace:
             return f"rf: postconditions were not evaluated ({trace})"
@@ -567,7 +569,8 @@ def run(tier: str) -> int:
         pre, s1 = gen_list(r, schema=True, cap=10) if where != "post" else ([], "none")
         post, s2 = gen_list(r, schema=True, base=10, cap=10) if where != "pre" else ([], "none")
         cases.append(("rf", {"pre": pre, "post": post, "shape": f"{s1}/{s2}",
-                             "crud": r.choice(["okReadonly", "okMatch", "okMatch", "createRetry"]),
+                             "crud": r.choice(["okReadonly", "okMatch", "okMatch", "createRetry", "deletedAbsent", "deletedAbsent",
+                                               "deleting"]),
                              "lookup": r.choice(["notNeeded", "notNeeded", "found", "found", "unknownKind"])}))
     exhaustive = 0
     if tier == "thorough":
@@ -585,7 +588,8 @@ def run(tier: str) -> int:
                     if n <= 3:
                         cases.append(("rf", {"pre": mk(0), "post": [], "shape": "exhaustive/none", "crud": "okMatch",
                                              "lookup": ["notNeeded", "found", "unknownKind"][exhaustive % 3]}))
-                        cases.append(("rf", {"pre": [], "post": mk(10), "shape": "none/exhaustive", "crud": "okMatch"}))
+                        cases.append(("rf", {"pre": [], "post": mk(10), "shape": "none/exhaustive",
+                                             "crud": ["okMatch", "deletedAbsent", "okReadonly"][exhaustive % 3]}))
                         exhaustive += 2
 
     reqs = []
